@@ -365,9 +365,24 @@ Definition include_step (self other : ffi) (same : bool) : (parser * list nat) *
   | None => ((fparser self, included_ffis self), e)
   end.
 
-Definition step_eqb (a b : (parser * list nat) * option exc) : bool :=
-  parser_eqb (fst (fst a)) (fst (fst b)) && Nat.eqb (length (snd (fst a))) (length (snd (fst b)))
-  && opt_exc_eqb (snd a) (snd b).
+(* comparison with the observed state.  _included_declarations is a Python set of model type objects:
+   struct/union/enum objects hash by identity, but typedef targets such as 'char *' compare
+   structurally, so the set is observed modulo that equality; [cls] maps every object identity of
+   the case to its equality class and the observed set is given as classes. *)
+Fixpoint class_of (cls : list (N * N)) (o : N) : N :=
+  match cls with
+  | [] => o
+  | (k, c) :: r => if N.eqb k o then c else class_of r o
+  end.
+
+Definition step_matches (model : (parser * list nat) * option exc)
+                        (obs : ((parser * list nat) * option exc) * list (N * N)) : bool :=
+  let mp := fst (fst model) in let op := fst (fst (fst obs)) in
+  alist_eqb (fun x y => N.eqb (fst x) (fst y) && N.eqb (snd x) (snd y)) (decls mp) (decls op)
+  && alist_eqb Z.eqb (consts mp) (consts op)
+  && set_eqb (map (class_of (snd obs)) (incl_decls mp)) (incl_decls op)
+  && Nat.eqb (length (snd (fst model))) (length (snd (fst (fst obs))))
+  && opt_exc_eqb (snd model) (snd (fst obs)).
 
 (* queries on a world of out-of-line modules *)
 Inductive query :=
